@@ -331,7 +331,7 @@ func init() {
 	core.Register(&core.Check{
 		ID:    "C04",
 		Level: "exploration",
-		Rule:  "exhaustive matrix: every target type x every value descriptor (variable, constant literal in two spellings, empty and nested empty literals, literal containing a variable, function result, and expressions made of constants: group, concatenation, slice, repetition, index) x 7 contexts (assignment, parameter, variadic parameter, return, array element, map field, inferred declaration) over all types of nesting depth <= 1 (quick) / <= 2 (thorough), plus the operator table (13 operators x all ordered type pairs, variables and constants) and unary, index, slice, field, assertion, condition and range contexts; one tiny program per cell; acceptance and printed typeof compared with the transcribed rules. distinct = distinct cells",
+		Rule:  "exhaustive matrix: every target type x every value descriptor (variable, constant literal in two spellings, empty and nested empty literals, literal containing a variable, function result, and expressions made of constants: group, concatenation, slice, repetition, index) x 7 contexts (assignment, parameter, variadic parameter, return, array element, map field, inferred declaration) over all types of nesting depth <= 1 (quick) / <= 2 (thorough), plus the operator table (13 operators x all ordered type pairs, variables and constants) and unary, index, slice, field, assertion, condition and range contexts, and the relation `x := []` = `x:[]any` (7 spellings x 20 uses); one tiny program per cell; acceptance and printed typeof compared with the transcribed rules. distinct = distinct cells",
 		Assumptions: []string{
 			"cells the specification leaves open are listed and not judged: a literal that contains variables assigned to an any-based composite type (the text says it is treated like a variable; the implementation converts element-wise)",
 		},
@@ -515,7 +515,51 @@ func expectInferred(v c04Val) c04Expect {
 }
 
 // c04Other: unary operators, index, slice, field access, type assertion, condition, range.
+// c04InferredVsTyped: a variable declared by inference from an untyped empty literal is the same
+// thing as a variable declared with the inferred type (`x := []` is `x:[]any`): every use must be
+// accepted / rejected / typed alike.
+func c04InferredVsTyped(c *core.Ctx) {
+	pairs := [][2]string{{"v := []\n", "v:[]any\n"}, {"v := {}\n", "v:{}any\n"}, {"v := ([])\n", "v:[]any\n"}, {"v := []+[]\n", "v:[]any\n"}, {"v := [[]]\n", "v:[][]any\n"}, {"v := {a:[]}\n", "v:{}[]any\n"}, {"v := [[]][0]\n", "v:[]any\n"}}
+	uses := []string{
+		"b:[]any\nb = [v]\nprint (typeof b)\n", "b:[]any\nb = v\nprint (typeof b)\n", "b:any\nb = [v]\nprint (typeof b)\n", "b:[][]any\nb = [v]\nprint (typeof b)\n", "b:{}any\nb = {k:v}\nprint (typeof b)\n",
+		"y := [v [1]]\nprint (typeof y)\n", "y := [[1] v]\nprint (typeof y)\n", "y := [v []]\nprint (typeof y)\n", "y := [v v]\nprint (typeof y)\n", "y := {a:v b:[1]}\nprint (typeof y)\n", "y := [v {}]\nprint (typeof y)\n",
+		"y := v + [1]\nprint (typeof y)\n", "y := [v] + [[1]]\nprint (typeof y)\n", "func f p:[]any\n    print (typeof p)\nend\nf [v]\n", "func f p:[][]num\n    print (typeof p)\nend\nf [v]\n", "func f:[]any\n    return [v]\nend\nprint (typeof (f))\n",
+		"for e := range [v]\n    w:[]num\n    w = e\n    print (typeof e)\nend\n", "print (typeof v) (typeof [v])\n", "y := v == []\nprint y\n", "y := [v] == [[]]\nprint y\n",
+	}
+	for pi, pr := range pairs {
+		for ui, use := range uses {
+			if (pi == 4 || pi == 5) && ui >= 18 {
+				continue // these declarations differ in their initial value, which == observes
+			}
+			cell := fmt.Sprintf("inferred-vs-typed|%d|%d", pi, ui)
+			c.Event("cells", 1)
+			c.Distinct(cell)
+			c.Cover("context", "inferred-vs-typed")
+			var res [2]string
+			for k := 0; k < 2; k++ {
+				src := pr[k] + use
+				c.Journal(src)
+				o := plat.Run(src, plat.Opts{YieldBudget: 20000})
+				if o.Class == "gopanic" {
+					c.Violation("crash:"+o.Site, cell+": Go panic "+firstN(o.GoPanic, 200), src, nil)
+					return
+				}
+				res[k] = o.Class + "|" + strings.Join(o.Events, ";")
+				if o.Class == "parse-error" {
+					res[k] = "rejected" // messages may name the declaration differently
+				}
+			}
+			if res[0] != res[1] {
+				c.Violation("acceptance:inferred-vs-typed", fmt.Sprintf("%s: with `%s` the program gives %s, with `%s` it gives %s", cell, strings.TrimSpace(pr[0]), firstN(res[0], 120), strings.TrimSpace(pr[1]), firstN(res[1], 120)), pr[0]+use, nil)
+			}
+		}
+	}
+}
+
 func c04Other(c *core.Ctx, st *c04State, k int) {
+	if k == 0 {
+		c04InferredVsTyped(c)
+	}
 	for _, t := range st.types {
 		ts := t.String()
 		decl := "a:" + ts + "\n"
